@@ -94,10 +94,10 @@ T2 == k = 2 => \A s \in Subs : \A v \in 1..NV :
                  /\ (c.lam[v] = 0 => m.new[s][v][1] = 0)
 \* "without additive term the sensitivity-weighted image sum equals the total of the measured counts after every full-data
 \*  update": the law and the count clause of the specification agree (the algebraic identity behind the property)
-T3 == k = 3 => ((c.I.N = 1 /\ c.I.prior = 0 /\ c.noAdd /\ CountsSeen(c.sys, Prev(c), c.y)) =>
+T3 == k = 3 => ((c.I.N = 1 /\ c.I.prior = 0 /\ c.noAdd /\ CountsSeen(c.sys, c.I, Prev(c), c.y)) =>
                   LET out == [v \in 1..NV |-> m.new[0][v][1]]
                       eo == 1 + Max2(Max2(m.new[0][1][2], m.new[0][2][2]), m.new[0][3][2])
-                  IN PreservesCounts(c.sys, m.st, c.y, out, eo))
+                  IN PreservesCounts(c.sys, c.I, m.st, c.y, out, eo))
 \* consistent data (y = P lambda + a) without normalisation is a fixed point of EM with true subset sensitivities
 T4 == k = 4 => ((c.consistent /\ c.plainEff /\ c.I.prior = 0 /\ c.I.uss) =>
                   \A s \in Subs : \A v \in 1..NV :
